@@ -127,6 +127,10 @@ Definition sstep (st : srun) (op : list tok) : srun * list tok :=
         (mksrun (fst (shell_step enc_hash true (r_sh st) (r_now st) no_env [] (EConfig (ISetCluster c'))))
                 (r_now st) c' (r_seq st) (r_nseq st) (r_v6 st) (r_removed st), [TS "recluster"; TN 1])
       | _ => bad end
+    else if name =? "bounce" then
+      (* DeactivateListener + ActivateListener: close_all_flows, then a fresh session over the same manager *)
+      (mksrun (fst (shell_step enc_hash true (r_sh st) (r_now st) no_env [] ECloseAll))
+              (r_now st) (r_cfg st) (r_seq st) (r_nseq st) (r_v6 st) (r_removed st), [TS "bounce"; TN 1; TN 1])
     else if name =? "remove" then
       (* RemoveListener: close_all_flows, then the listener is gone *)
       (mksrun (fst (shell_step enc_hash true (r_sh st) (r_now st) no_env [] ECloseAll))
